@@ -429,7 +429,9 @@ class PLSSParser:
             # Discard the integer (first element in each 2-tuple), which would
             # only be used (elsewhere) with config setting 'sec_within'.
             for _, unused_bit in self.unused_components:
-                if len(unused_bit) >= self.MIN_REPORTABLE_UNUSED_LEN:
+                # Measure the text without the artifacts that would be
+                # cleaned up anyway (e.g., ' of ' between Sec and Twp/Rge).
+                if len(cleanup_desc(unused_bit)) >= self.MIN_REPORTABLE_UNUSED_LEN:
                     flag_unused(unused_bit)
 
         if segment:
